@@ -11,6 +11,7 @@ import (
 	"strings"
 
 	"golang.org/x/tools/go/packages"
+	"golang.org/x/tools/go/ssa"
 )
 
 func init() {
@@ -124,64 +125,77 @@ func runC05(c *Ctx) {
 		})
 		c.Ob("IMPORTS-SKIPPED", "adapter "+n+"/via-files-adapter", fr.Decl.Pos(), ok && !direct, true, "static call chain reaches NewLintFilesRuleHandler: %v; bypasses it with NewRuleHandler: %v", ok, direct)
 	}
-	// (2c) the files adapter filters
+	// (2c) the files adapter filters — decided on SSA: the slice handed to the callback is built only by appends of a
+	// file that lie on the false edge of that same file's IsImport() (in the adapter or in a helper it calls)
 	{
 		fr := filesAdapter
-		info := fr.Info()
-		fobj := info.Defs[fr.Decl.Type.Params.List[0].Names[0]]
-		okAll, found := true, false
-		ast.Inspect(fr.Decl.Body, func(n ast.Node) bool {
-			call, ok := n.(*ast.CallExpr)
-			if !ok || identObj(info, call.Fun) != fobj || len(call.Args) != 3 {
-				return true
+		sf := p.SSAFunc(fr.Obj)
+		reach := reachSSA(sf, 2)
+		isFileSlice := func(t types.Type) bool {
+			sl, ok := t.Underlying().(*types.Slice)
+			return ok && namedName(sl.Elem()) == "File" && strings.HasSuffix(namedPath(sl.Elem()), "bufprotosource.File")
+		}
+		appends, guardedAppends := 0, 0
+		var appendVals []ssa.Value
+		for _, f := range reach {
+			if f.Pkg == nil || f.Pkg != sf.Pkg {
+				continue
 			}
-			found = true
-			s := identObj(info, call.Args[2])
-			if s == nil {
-				okAll = false
-				return true
-			}
-			// all writes to s
-			ast.Inspect(fr.Decl.Body, func(m ast.Node) bool {
-				as, ok := m.(*ast.AssignStmt)
-				if !ok {
-					return true
+			for _, call := range callsIn(f) {
+				b, isB := call.Call.Value.(*ssa.Builtin)
+				if !isB || b.Name() != "append" || len(call.Call.Args) != 2 || !isFileSlice(call.Call.Args[0].Type()) {
+					continue
 				}
-				for i, lhs := range as.Lhs {
-					if identObj(info, lhs) != s {
-						continue
+				appends++
+				if call.Value != nil {
+					appendVals = append(appendVals, call.Value)
+				}
+				// the appended element(s)
+				var elems []ssa.Value
+				if sl, ok := call.Call.Args[1].(*ssa.Slice); ok {
+					if al, ok := sl.X.(*ssa.Alloc); ok {
+						elems = storesInto(al)
 					}
-					rhs := as.Rhs[i]
-					if call, ok := rhs.(*ast.CallExpr); ok {
-						if id, ok := call.Fun.(*ast.Ident); ok && id.Name == "make" {
+				}
+				ok := len(elems) > 0
+				for _, e := range elems {
+					g := false
+					for _, ge := range guardingEdges(call.Instr.Block()) {
+						cond, pos := condPolarity(ge.If.Cond)
+						cc, isCall := cond.(*ssa.Call)
+						if !isCall || !cc.Call.IsInvoke() || cc.Call.Method.Name() != "IsImport" {
 							continue
 						}
-						if id, ok := call.Fun.(*ast.Ident); ok && id.Name == "append" {
-							guarded := false
-							for cur := p.Parent(as); cur != nil && cur != fr.Decl; cur = p.Parent(cur) {
-								if ifs, ok := cur.(*ast.IfStmt); ok {
-									if ue, ok := ast.Unparen(ifs.Cond).(*ast.UnaryExpr); ok && ue.Op == token.NOT {
-										if c2, ok := ue.X.(*ast.CallExpr); ok {
-											if sel, ok := c2.Fun.(*ast.SelectorExpr); ok && sel.Sel.Name == "IsImport" && len(call.Args) == 2 && identObj(info, sel.X) == identObj(info, call.Args[1]) {
-												guarded = true
-											}
-										}
-									}
-								}
-							}
-							if !guarded {
-								okAll = false
-							}
-							continue
+						// taken edge means IsImport() == false
+						if (ge.Branch == pos) == false && stripConv(cc.Call.Value) == stripConv(e) {
+							g = true
 						}
 					}
-					okAll = false
+					if !g {
+						ok = false
+					}
 				}
-				return true
-			})
-			return true
-		})
-		c.Ob("IMPORTS-SKIPPED", "NewLintFilesRuleHandler/filters", fr.Decl.Pos(), okAll && found, true, "the slice passed to the callback is only appended to under `!file.IsImport()` for that same file: %v", okAll && found)
+				if ok {
+					guardedAppends++
+				}
+			}
+		}
+		// the callback's file argument depends on those appends
+		fed := false
+		for _, f := range reach {
+			for _, call := range callsIn(f) {
+				if call.Call.IsInvoke() || staticCalleeObj(call.Call) != nil || len(call.Call.Args) != 3 || !isFileSlice(call.Call.Args[2].Type()) {
+					continue
+				}
+				for _, av := range appendVals {
+					if dependsOnValueDeep(call.Call.Args[2], av) {
+						fed = true
+					}
+				}
+			}
+		}
+		c.Ob("IMPORTS-SKIPPED", "NewLintFilesRuleHandler/filters", fr.Decl.Pos(), appends > 0 && appends == guardedAppends && fed, true,
+			"%d append(s) build a file slice in the adapter and its helpers, %d of them on the false edge of that file's IsImport(); the callback's file argument is built from them: %v", appends, guardedAppends, fed)
 	}
 
 	// (3) traversal
